@@ -1045,6 +1045,22 @@ def ref_resolution(repo: Repo, R):
     R.check(ok1 and ok2 and ok3, rule, key_of(fu), fu.site,
             f"update_ref_deps: each connected port replaced by the referent (same port name): {ok1}; dependent slices re-parented: {ok2}; concat parts substituted position-wise: {ok3}",
             why="ports, slices or concatenations that used the reference keep pointing at the unresolved reference or at another part")
+    # whoever hands a dependent on to a new parent enters it among that parent's dependents (as `parent[..]` and Concat()
+    # do when they create it): the referent may itself be a reference that resolves later, and must find them then
+    handed = {}
+    for attr, stores in (("_slices", [st for st in au.stmts(fu.node) if isinstance(st, ast.Assign) and ast.unparse(st.targets[0]).endswith(".parent") and ast.unparse(st.value) == r1]),
+                         ("_concats", [st for st in au.stmts(fu.node) if isinstance(st, ast.Assign) and ast.unparse(st.targets[0]).endswith(".parts")])):
+        okh = bool(stores)
+        for st in stores:
+            dep = ast.unparse(st.targets[0].value)
+            lp = enclosing(fu.node, st, (ast.For,))
+            regs = [c for c in au.calls_in(lp if lp is not None else fu.node) if isinstance(c.func, ast.Attribute) and c.func.attr == "add" and ast.unparse(c.func.value) == f"{r1}.{attr}" and len(c.args) == 1 and ast.unparse(c.args[0]) == dep]
+            # under nothing but "the referent keeps such a record at all"
+            okh = okh and any(all(ast.unparse(t) in (f"hasattr({r1}, '{attr}')",) and pol for t, pol in shared.path_conditions(fu.node, c) if (t, pol) not in shared.path_conditions(fu.node, st)) for c in regs)
+        handed[attr] = okh
+    R.check(all(handed.values()), rule, key_of(fu, "dependents-entered-with-the-referent"), fu.site,
+            f"update_ref_deps enters every slice and concatenation it hands on among the referent's own dependents: {handed}",
+            why="a slice (or concatenation) of a port reference whose port is wired to a bundle member stays on the bundle reference for ever: the design is refused with `Invalid attempt to resolve slicing`")
     # follow(): both directions
     ff = follow_function(repo)
     if ff is None:
